@@ -585,6 +585,9 @@ func (a *Term) ToBiscuit(parameters ParametersMap) (biscuit.Term, error) {
 		if err != nil {
 			return nil, fmt.Errorf("parser: failed to decode date: %v", err)
 		}
+		if date.Unix() < 0 {
+			return nil, fmt.Errorf("parser: failed to decode date: %s is before the UNIX epoch", *a.Date)
+		}
 
 		biscuitTerm = biscuit.Date(date)
 	case a.Bytes != nil:
